@@ -1,6 +1,7 @@
 ------------------------------ MODULE Commands ------------------------------
 (* Design spec of the command encoders of cflib (C08): Commander, HighLevelCommander,
-   Localization/Extpos senders, PlatformService arming/recovery, LoPoAnchor, CRTPPacket header.
+   Localization/Extpos senders (incl. the short LPP transport), PlatformService arming/recovery,
+   LoPoAnchor, CRTPPacket header, the size check of Crazyflie.send_packet.
 
    Implementation-shaped: the state is what the code keeps (PlatformService._protocolVersion,
    Commander._x_mode); every API call is one action that evaluates the code's own steps --
@@ -214,6 +215,9 @@ Encode(cmd, v, x, a) ==
     [] cmd = "crash_recovery" -> Send(13, 0, Pack(<<"B">>, <<I(2)>>))
     [] cmd = "lpp_position" ->
          Send(6, 1, Pack(<<"B", "B", "B", "f", "f", "f">>, <<I(2), a[1], I(1), a[2], a[3], a[4]>>))
+    [] cmd = "lpp_raw" ->
+         \* send_short_lpp_packet: struct.pack('<BB', 2, dest_id) + data
+         LET hd == Pack(<<"B", "B">>, <<I(2), a[1]>>) IN Send(6, 1, [ok |-> hd.ok, b |-> hd.b \o a[2].v])
     [] cmd = "lpp_reboot" -> Send(6, 1, Pack(<<"B", "B", "B", "B">>, <<I(2), a[1], I(2), a[2]>>))
     [] cmd = "lpp_mode" -> Send(6, 1, Pack(<<"B", "B", "B", "B">>, <<I(2), a[1], I(3), a[2]>>))
     [] OTHER -> Quiet
@@ -261,6 +265,7 @@ HeadersOK == last.kind = "hdr" => P!HeaderClause(last.port, last.chan, last.h) =
 \* all have a wire value is sent
 RepresentableIsSent == last.kind = "cmd" =>
     LET lay == P!Layout(last.cmd, last.ver, last.xmode) IN
-    (lay.ok /\ \A i \in DOMAIN lay.f : P!CanEncode(lay.f[i], last.args)) => last.out = "sent"
+    (lay.ok /\ (\A i \in DOMAIN lay.f : P!CanEncode(lay.f[i], last.args))
+            /\ P!TotalWidth(lay.f, last.args) <= 30) => last.out = "sent"
 TypeOK == ver \in Versions \cup {-1} /\ xmode \in BOOLEAN /\ last.kind \in {"none", "cmd", "hdr"}
 =============================================================================
